@@ -178,7 +178,7 @@ func (p *c09) Init(t *testing.T, seed uint64, tier string) {
 	// BAM-level workloads: a fixed header and record list
 	{
 		gt := NewTape(99, "C09-bam", 0)
-		h := HdrSpec{SO: "unsorted", Refs: []RefSpec{{"chr1", 100000}, {"chr2", 50000}}}
+		h := HdrSpec{SO: "unsorted", Refs: []RefSpec{{Name: "chr1", Len: 100000}, {Name: "chr2", Len: 50000}}}
 		var recs []RecSpec
 		for i := 0; i < 9; i++ {
 			size := 0
